@@ -413,7 +413,8 @@ func (set *Set) MarkHostHealthy(host *Host) bool {
 	}
 	set.Lock()
 	defer set.Unlock()
-	if _, ok := set.all[host.Addr]; !ok {
+	// the host must be the one in the set, not a stale instance with the same address.
+	if cur, ok := set.all[host.Addr]; !ok || cur != host {
 		return false
 	}
 	set.addToHealthy(host)
@@ -427,7 +428,8 @@ func (set *Set) MarkHostUnhealthy(host *Host) bool {
 	}
 	set.Lock()
 	defer set.Unlock()
-	if _, ok := set.all[host.Addr]; !ok {
+	// the host must be the one in the set, not a stale instance with the same address.
+	if cur, ok := set.all[host.Addr]; !ok || cur != host {
 		return false
 	}
 	set.removeFromHealthy(host)
